@@ -37,12 +37,12 @@ func init() {
 
 // c32Case describes one constant so that a replay can rebuild it without the enumerator.
 type c32Case struct {
-	Origin string `json:"origin"`           // "expr" | "built" | "import-table"
-	Kind   string `json:"kind"`             // untyped kind label
-	Expr   string `json:"expr,omitempty"`   // origin expr: Go constant expression (value from go/types)
-	Built  string `json:"built,omitempty"`  // origin built: name in the boundary set
-	Entry  string `json:"entry,omitempty"`  // origin import-table: "path.Name"
-	Text   string `json:"text,omitempty"`   // marshalled text (import table) or Marshal output
+	Origin string `json:"origin"`          // "expr" | "built" | "import-table"
+	Kind   string `json:"kind"`            // untyped kind label
+	Expr   string `json:"expr,omitempty"`  // origin expr: Go constant expression (value from go/types)
+	Built  string `json:"built,omitempty"` // origin built: name in the boundary set
+	Entry  string `json:"entry,omitempty"` // origin import-table: "path.Name"
+	Text   string `json:"text,omitempty"`  // marshalled text (import table) or Marshal output
 	Got    string `json:"got,omitempty"`
 }
 
@@ -97,12 +97,12 @@ func c32Check(it *c32Item) *c32Viol {
 	cas := it.cas
 	if p := core.Catch(func() { text = untyped.Marshal(it.kind, it.val) }); p != nil {
 		cas.Got = fmt.Sprint("Marshal panics: ", p)
-		return &c32Viol{sig("marshal-panic"), c32Describe(it)+": "+cas.Got, cas}
+		return &c32Viol{sig("marshal-panic"), c32Describe(it) + ": " + cas.Got, cas}
 	}
 	cas.Text = c04Clip(text)
 	if p := core.Catch(func() { k2, v2 = untyped.Unmarshal(text) }); p != nil {
 		cas.Got = fmt.Sprint("Unmarshal panics: ", p)
-		return &c32Viol{sig("unmarshal-panic"), c32Describe(it)+" marshalled as "+c04Clip(text)+": "+cas.Got, cas}
+		return &c32Viol{sig("unmarshal-panic"), c32Describe(it) + " marshalled as " + c04Clip(text) + ": " + cas.Got, cas}
 	}
 	if k2 != it.kind {
 		cas.Got = "kind " + c04UntypedKind(k2)
@@ -247,7 +247,9 @@ func c32Ints() []c32Named {
 func c32Floats() []c32Named {
 	one := constant.MakeInt64(1)
 	f := func(s string) c32Named { return c32Named{s, c32Lit(s, token.FLOAT)} }
-	q := func(name string, x, y constant.Value) c32Named { return c32Named{name, c32Op(constant.ToFloat(x), token.QUO, y)} }
+	q := func(name string, x, y constant.Value) c32Named {
+		return c32Named{name, c32Op(constant.ToFloat(x), token.QUO, y)}
+	}
 	out := []c32Named{
 		f("0.0"), f("1.0"), f("0.5"), f("0.1"), f("2.5"), f("1e3"), f("0x1p-1074"), f("0x1.fffffffffffffp1023"), f("0x1.000001000000001p0"),
 		f("1e400"), f("1e-400"), f("1e5000"), f("1e-5000"), f("123456789.123456789e-4000"),
